@@ -171,7 +171,7 @@ PROPS = {
                    "a Lean function whose result is compared with the effective parameters OBSERVED from written digests "
                    "(candidate search with x/crypto). Stores are built with store.NewDirFromConfig from generated YAML.",
         rule="Generated YAML configurations (scrypt cost 1-6 (thorough: up to 12), r absent/0/1/8/16, p absent/0/1/2, "
-             "argon2id time 1-3, memory 8..1024, threads 1-4, length 4..64; 1-4 sets, any default, default switched "
+             "argon2id time 1-3, memory 8..1024, threads 1-4 / 17 / 32 / 255 (more than the processors the harness shard runs on: GOMAXPROCS 1, 2, 3 or all), length 4..64; 1-4 sets, any default, default switched "
              "between writes); 4-9 writes each with high-entropy passwords, a third of the updates replacing a record whose "
              "time stamp was skewed behind the store's back (+2 s .. +400 d, past, epoch, +-2^62); per write: shape, default id, time window, "
              "salt size, salt freshness, digest vs x/crypto oracle from the YAML values, observed effective parameters, "
@@ -338,7 +338,7 @@ PROPS = {
     ),
     "C11": dict(
         modules=["Whawty.Props.C11"],
-        suites=[("overlay", "v11"), ("overlay", "v11g"), ("overlay", "v11s"), ("overlay-race", "v11")],
+        suites=[("overlay", "v11"), ("overlay", "v11g"), ("overlay", "v11s"), ("overlay", "v11i"), ("overlay-race", "v11")],
         level_text="linCheckFinal (memoised Wing-Gong search, re-validated by validLin and the final-state test) is sound: an accepted history has a "
                    "linearization that contains every operation, respects real time and reproduces every response "
                    "(validLin_spec) and ends in the observed idle store; a rejection by the exhaustive search is conclusive "
@@ -354,7 +354,9 @@ PROPS = {
              "stepped into an upgradeable login while remove+add / update / remove / set-admin+update of the SAME user "
              "are already queued, so that the internal upgrade races with them under the dispatcher's random select. "
              "The linearization must also END in the observed idle state (linCheckFinal); (d) the free-running histories "
-             "again in a binary built with the Go race detector (a reported race is a violation). After quiescence the directory (users, admin "
+             "again in a binary built with the Go race detector (a reported race is a violation); (e) invariant stress: one "
+             "client flips a user's admin flag, one adds / removes another user, five read (login, list, list-full) for "
+             "150 ms (600 ms): every correct-password login succeeds and every listing shows the user. After quiescence the directory (users, admin "
              "flags, which known password authenticates) must equal the linearization's final state and pass Check.",
         trusted=[T_GO, T_CRYPTO, "logical clocks (one atomic counter) for invocation / response order"],
         partial=["histories longer than 10 operations that the memoised search rejects are reported as a correspondence "
@@ -513,8 +515,13 @@ def run_hdrv(suite, tier, seed, workdir, filt, pam=False):
         lp = os.path.join(workdir, "%s-%d.lines" % (suite, i))
         op = os.path.join(workdir, "%s-%d.out" % (suite, i))
         with open(lp, "wb") as f:
+            # the processor count the Go runtime sees differs between shards (1, 2, 3, all): nothing the
+            # store writes or decides may depend on it
+            env = dict(GOENV)
+            if i % 4:
+                env["GOMAXPROCS"] = str(i % 4)
             r = subprocess.run([exe, suite, str(seed), tier, str(i), str(n), sw], stdout=f,
-                               stderr=subprocess.PIPE, env=GOENV)
+                               stderr=subprocess.PIPE, env=env)
         if r.returncode != 0:
             raise HarnessError("harness %s shard %d exited %d: %s" % (suite, i, r.returncode, r.stderr.decode()[-2000:]))
         lines = open(lp, errors="replace").read().split("\n")
